@@ -3,7 +3,7 @@
 From Coq Require Import List Arith NArith ZArith Bool Lia ZifyN ZifyNat ZifyBool.
 From Coq Require Import Init.Byte.
 From NoKV Require Import Base.Bytes Base.Num Base.Varint Base.Crc32c Model.EntryCodec Model.Lsm Model.Vlog
-     Spec.MvccSpec Spec.VlogSpec.
+     Spec.MvccSpec Spec.VlogSpec Spec.LsmSpec Proofs.LsmRead Proofs.LsmMain Proofs.LsmPreserve.
 Import ListNotations.
 Local Open Scope N_scope.
 
@@ -76,3 +76,689 @@ Proof.
     rewrite Hl, Hpre. apply drop_app_exact. }
   rewrite Hd. apply take_app_exact.
 Qed.
+
+(** * Looking a pointer up *)
+Definition f_lookup (f : vfile) (off len : N) : option vrec :=
+  match find (fun v => vr_off v =? off) (vf_recs f) with
+  | Some v => if vr_len v =? len then Some v else None
+  | None => None
+  end.
+Definition b_lookup (b : bucket) (fid off len : N) : option vrec :=
+  match find_file b fid with Some f => f_lookup f off len | None => None end.
+Definition vl_lookup (vl : list bucket) (p : vptr) : option vrec :=
+  match nth_error vl (N.to_nat (p_bucket p)) with
+  | Some b => b_lookup b (p_fid p) (p_off p) (p_len p)
+  | None => None
+  end.
+
+Definition rec_ok (r : rec) : Prop := entry_ok (entry_of r).
+
+Lemma vl_read_lookup vl p v :
+  vl_lookup vl p = Some v -> rec_ok (vr_rec v) -> vl_read vl p = Some (r_val (vr_rec v)).
+Proof.
+  unfold vl_lookup, b_lookup, f_lookup, vl_read. intros H Hok.
+  destruct (nth_error vl (N.to_nat (p_bucket p))) as [b|]; [|discriminate].
+  destruct (find_file b (p_fid p)) as [f|]; [|discriminate].
+  destruct (find (fun v0 => vr_off v0 =? p_off p) (vf_recs f)) as [v0|]; [|discriminate].
+  destruct (vr_len v0 =? p_len p); [|discriminate]. inversion H; subst v0.
+  rewrite (rt_value_slice _ Hok). reflexivity.
+Qed.
+
+Lemma find_app_l {A} (f : A -> bool) l l' x : find f l = Some x -> find f (l ++ l') = Some x.
+Proof. induction l as [|a l IH]; cbn; [discriminate|]. destruct (f a); auto. Qed.
+
+Lemma find_app_r {A} (f : A -> bool) l l' : (forall a, In a l -> f a = false) -> find f (l ++ l') = find f l'.
+Proof.
+  induction l as [|a l IH]; cbn; intro H; [reflexivity|].
+  rewrite (H a) by auto. apply IH. intros; apply H; auto.
+Qed.
+
+Lemma rec_len_pos r : 4 <= rec_len r.
+Proof. unfold rec_len. lia. Qed.
+
+(** records of one reservation: found at their offsets *)
+Lemma place_off start rs v : In v (place start rs) -> start <= vr_off v.
+Proof.
+  revert start. induction rs as [|r rs IH]; intros start H; cbn in H; [contradiction|].
+  destruct H as [<-|H]; cbn; [lia|]. specialize (IH _ H). pose proof (rec_len_pos r). lia.
+Qed.
+
+Lemma place_find start rs v :
+  In v (place start rs) -> find (fun x => vr_off x =? vr_off v) (place start rs) = Some v.
+Proof.
+  revert start. induction rs as [|r rs IH]; intros start H; cbn in H; [contradiction|].
+  cbn [place find]. destruct H as [<-|H]; cbn [vr_off].
+  - now rewrite N.eqb_refl.
+  - pose proof (place_off _ _ _ H). pose proof (rec_len_pos r).
+    destruct (start =? vr_off v) eqn:E; [lia|]. now apply IH.
+Qed.
+
+Lemma place_spec start rs :
+  Forall2 (fun r v => vr_rec v = r /\ vr_len v = rec_len r) rs (place start rs).
+Proof. revert start. induction rs as [|r rs IH]; intro start; cbn; constructor; auto. Qed.
+
+(** * Well-formed buckets *)
+Record bwf (b : bucket) : Prop := {
+  bw_le : forall f, In f (b_files b) -> vf_fid f <= b_active b;
+  bw_act : exists f, In f (b_files b) /\ vf_fid f = b_active b;
+  bw_off : forall f v, In f (b_files b) -> vf_fid f = b_active b -> In v (vf_recs f) -> vr_off v < b_off b }.
+
+Lemma find_file_some b fid f : find_file b fid = Some f -> In f (b_files b) /\ vf_fid f = fid.
+Proof. unfold find_file. intro H. apply find_some in H as [H1 H2]. split; [exact H1|]. now apply N.eqb_eq. Qed.
+
+Lemma find_file_active b : bwf b -> exists f, find_file b (b_active b) = Some f.
+Proof.
+  intros [_ (f & Hin & Hf) _]. unfold find_file.
+  destruct (find (fun f0 => vf_fid f0 =? b_active b) (b_files b)) eqn:E; [eauto|].
+  eapply find_none in E; [|exact Hin]. cbn in E. rewrite Hf, N.eqb_refl in E. discriminate.
+Qed.
+
+Lemma empty_bucket_wf : bwf empty_bucket.
+Proof.
+  constructor; cbn.
+  - intros f [<-|[]]. cbn. lia.
+  - eexists; split; [left; reflexivity | reflexivity].
+  - intros f v [<-|[]] _ [].
+Qed.
+
+(** rotation keeps every lookup *)
+Lemma rotate_lookup b fid off len v : bwf b -> b_lookup b fid off len = Some v -> b_lookup (rotate_b b) fid off len = Some v.
+Proof.
+  intros _ H. unfold b_lookup, find_file in *. cbn [rotate_b b_files].
+  destruct (find (fun f => vf_fid f =? fid) (b_files b)) as [f|] eqn:E; [|discriminate].
+  now rewrite (find_app_l _ _ _ _ E).
+Qed.
+
+Lemma rotate_wf b : bwf b -> bwf (rotate_b b).
+Proof.
+  intros [H1 H2 H3]. constructor; cbn [rotate_b b_files b_active b_off].
+  - intros f Hf. apply in_app_or in Hf as [Hf|[<-|[]]]; [specialize (H1 _ Hf); lia | cbn; lia].
+  - eexists. split; [apply in_or_app; right; left; reflexivity | reflexivity].
+  - intros f v Hf Hfid Hv. apply in_app_or in Hf as [Hf|[<-|[]]].
+    + specialize (H1 _ Hf). lia.
+    + cbn in Hv. contradiction.
+Qed.
+
+(** adding records to the active file *)
+Lemma find_file_add b fid vs fid' f :
+  find_file b fid' = Some f -> find_file (add_recs b fid vs) fid' = Some (add_to_file fid vs f).
+Proof.
+  unfold find_file, add_recs. cbn [b_files]. induction (b_files b) as [|a l IH]; cbn; [discriminate|].
+  assert (Hfid : vf_fid (add_to_file fid vs a) = vf_fid a) by (unfold add_to_file; destruct (vf_fid a =? fid); reflexivity).
+  rewrite Hfid. destruct (vf_fid a =? fid'); [intro H; now inversion H | exact IH].
+Qed.
+
+Lemma find_file_add_none b fid vs fid' :
+  find_file b fid' = None -> find_file (add_recs b fid vs) fid' = None.
+Proof.
+  unfold find_file, add_recs. cbn [b_files]. induction (b_files b) as [|a l IH]; cbn; [reflexivity|].
+  assert (Hfid : vf_fid (add_to_file fid vs a) = vf_fid a) by (unfold add_to_file; destruct (vf_fid a =? fid); reflexivity).
+  rewrite Hfid. destruct (vf_fid a =? fid'); [discriminate | exact IH].
+Qed.
+
+Lemma add_lookup_old b fid vs fid' off len v :
+  b_lookup b fid' off len = Some v -> b_lookup (add_recs b fid vs) fid' off len = Some v.
+Proof.
+  unfold b_lookup. destruct (find_file b fid') as [f|] eqn:E; [|discriminate].
+  rewrite (find_file_add _ _ _ _ _ E). unfold f_lookup, add_to_file.
+  destruct (vf_fid f =? fid); [|auto]. cbn [vf_recs].
+  destruct (find (fun v0 => vr_off v0 =? off) (vf_recs f)) as [v0|] eqn:E2; [|discriminate].
+  now rewrite (find_app_l _ _ _ _ E2).
+Qed.
+
+(** new records placed at or beyond the write offset are found *)
+Lemma add_lookup_new b start rs v :
+  bwf b -> b_off b <= start -> In v (place start rs) ->
+  b_lookup (add_recs b (b_active b) (place start rs)) (b_active b) (vr_off v) (vr_len v) = Some v.
+Proof.
+  intros Hwf Hs Hv. destruct (find_file_active _ Hwf) as [f Hf].
+  unfold b_lookup. rewrite (find_file_add _ _ _ _ _ Hf).
+  destruct (find_file_some _ _ _ Hf) as [Hin Hfid].
+  unfold f_lookup, add_to_file. rewrite Hfid, N.eqb_refl. cbn [vf_recs].
+  rewrite find_app_r.
+  - rewrite (place_find _ _ _ Hv). now rewrite N.eqb_refl.
+  - intros a Ha. pose proof (bw_off _ Hwf f a Hin Hfid Ha). pose proof (place_off _ _ _ Hv).
+    destruct (vr_off a =? vr_off v) eqn:E; [lia | reflexivity].
+Qed.
+
+
+Lemma place_bound start rs v : In v (place start rs) -> vr_off v + 4 <= start + total_len rs.
+Proof.
+  revert start. induction rs as [|r rs IH]; intros start H; cbn in H; [contradiction|].
+  cbn [total_len fold_right]. fold (total_len rs). pose proof (rec_len_pos r).
+  destruct H as [<-|H]; cbn [vr_off]; [lia|]. specialize (IH _ H). lia.
+Qed.
+
+Lemma in_add_recs b fid vs f :
+  In f (b_files (add_recs b fid vs)) -> exists f0, In f0 (b_files b) /\ f = add_to_file fid vs f0.
+Proof. unfold add_recs. cbn [b_files]. intro H. apply in_map_iff in H as (f0 & <- & H). eauto. Qed.
+
+Lemma add_to_file_fid fid vs f : vf_fid (add_to_file fid vs f) = vf_fid f.
+Proof. unfold add_to_file. destruct (vf_fid f =? fid); reflexivity. Qed.
+
+Lemma add_wf b start rs :
+  bwf b -> b_off b <= start ->
+  bwf {| b_files := b_files (add_recs b (b_active b) (place start rs)); b_active := b_active b; b_off := start + total_len rs |}.
+Proof.
+  intros [H1 (fa & Ha & Hfa) H3] Hs. constructor; cbn [b_files b_active b_off].
+  - intros f Hf. apply in_add_recs in Hf as (f0 & H0 & ->). rewrite add_to_file_fid. auto.
+  - exists (add_to_file (b_active b) (place start rs) fa). split; [|now rewrite add_to_file_fid].
+    unfold add_recs. cbn [b_files]. now apply in_map.
+  - intros f v Hf Hfid Hv. apply in_add_recs in Hf as (f0 & H0 & ->). rewrite add_to_file_fid in Hfid.
+    unfold add_to_file in Hv. rewrite Hfid, N.eqb_refl in Hv. cbn [vf_recs] in Hv.
+    apply in_app_or in Hv as [Hv|Hv].
+    + specialize (H3 _ _ H0 Hfid Hv). lia.
+    + pose proof (place_bound _ _ _ Hv). lia.
+Qed.
+
+(** what one reservation + placement achieves *)
+Definition keeps (b b' : bucket) : Prop :=
+  forall fid off len v, b_lookup b fid off len = Some v -> b_lookup b' fid off len = Some v.
+
+Lemma keeps_refl b : keeps b b. Proof. intros ? ? ? ? H; exact H. Qed.
+Lemma keeps_trans a b c : keeps a b -> keeps b c -> keeps a c.
+Proof. intros H1 H2 ? ? ? ? H. auto. Qed.
+
+Definition placed (bk : N) (b' : bucket) (r : rec) (p : vptr) : Prop :=
+  p_bucket p = bk /\ exists v, b_lookup b' (p_fid p) (p_off p) (p_len p) = Some v /\ vr_rec v = r.
+
+Lemma reserve_spec c b sz :
+  bwf b ->
+  exists b0, bwf b0 /\ keeps b b0 /\
+    reserve c b sz = ({| b_files := b_files b0; b_active := b_active b0; b_off := b_off b0 + sz |}, b_active b0, b_off b0).
+Proof.
+  intro Hwf. unfold reserve.
+  set (b0 := if b_off b <? vl_header then {| b_files := b_files b; b_active := b_active b; b_off := vl_header |} else b).
+  assert (Hwf0 : bwf b0 /\ keeps b b0).
+  { unfold b0. destruct (b_off b <? vl_header) eqn:E; [|split; [exact Hwf | apply keeps_refl]].
+    split; [|intros ? ? ? ? H; exact H].
+    destruct Hwf as [H1 H2 H3]. constructor; cbn; auto. intros f v Hf Hfid Hv. specialize (H3 _ _ Hf Hfid Hv). lia. }
+  destruct Hwf0 as [Hwf0 Hk0].
+  destruct (c_max c <? b_off b0 + sz).
+  - exists (rotate_b b0). split; [now apply rotate_wf|]. split; [|reflexivity].
+    eapply keeps_trans; [exact Hk0|]. intros ? ? ? ? H. now apply rotate_lookup.
+  - exists b0. split; [exact Hwf0|]. split; [exact Hk0 | reflexivity].
+Qed.
+
+(** one reservation followed by consecutive placement *)
+Lemma placed_all bk B fid rs vs :
+  Forall2 (fun r v => vr_rec v = r /\ vr_len v = rec_len r) rs vs ->
+  (forall v, In v vs -> b_lookup B fid (vr_off v) (vr_len v) = Some v) ->
+  Forall2 (placed bk B) rs (map (ptr_of bk fid) vs).
+Proof.
+  induction 1 as [|r v rs' vs' [Hr Hl] _ IH]; intro Hall; cbn [map]; constructor.
+  - split; [reflexivity|]. exists v. cbn [ptr_of p_fid p_off p_len]. split; [apply Hall; now left | exact Hr].
+  - apply IH. intros v' Hv'. apply Hall. now right.
+Qed.
+
+Lemma reserve_place_spec c bk b rs b1 fid start :
+  bwf b -> reserve c b (total_len rs) = (b1, fid, start) ->
+  bwf (add_recs b1 fid (place start rs)) /\ keeps b (add_recs b1 fid (place start rs)) /\
+  Forall2 (placed bk (add_recs b1 fid (place start rs))) rs (map (ptr_of bk fid) (place start rs)).
+Proof.
+  intros Hwf Hres. destruct (reserve_spec c b (total_len rs) Hwf) as (b0 & Hwf0 & Hk & Heq).
+  rewrite Heq in Hres. inversion Hres; subst b1 fid start. clear Hres Heq.
+  set (vs := place (b_off b0) rs).
+  set (B := add_recs {| b_files := b_files b0; b_active := b_active b0; b_off := b_off b0 + total_len rs |} (b_active b0) vs).
+  assert (HB : B = {| b_files := b_files (add_recs b0 (b_active b0) vs); b_active := b_active b0; b_off := b_off b0 + total_len rs |})
+    by reflexivity.
+  assert (Hwf' : bwf B) by (rewrite HB; apply add_wf; [exact Hwf0 | lia]).
+  assert (Hold : keeps b0 B).
+  { intros fid off len v H. apply (add_lookup_old b0 (b_active b0) vs) in H. exact H. }
+  split; [exact Hwf'|]. split; [eapply keeps_trans; eassumption|].
+  apply placed_all; [apply place_spec|].
+  intros v Hv. pose proof (add_lookup_new b0 (b_off b0) rs v Hwf0 (N.le_refl _) Hv) as H. exact H.
+Qed.
+
+Lemma placed_keeps bk b b' r p : keeps b b' -> placed bk b r p -> placed bk b' r p.
+Proof. intros Hk [Hb (v & Hl & Hr)]. split; [exact Hb|]. exists v. split; [now apply Hk | exact Hr]. Qed.
+
+Lemma append_each_spec c bk rs : forall b b' ps,
+  bwf b -> append_each c bk b rs = (b', ps) ->
+  bwf b' /\ keeps b b' /\ Forall2 (placed bk b') rs ps.
+Proof.
+  induction rs as [|r rs IH]; intros b b' ps Hwf H; cbn [append_each] in H.
+  - inversion H; subst. split; [exact Hwf|]. split; [apply keeps_refl | constructor].
+  - destruct (reserve c b (rec_len r)) as [[b1 fid] start] eqn:Er.
+    destruct (append_each c bk (add_recs b1 fid [{| vr_off := start; vr_len := rec_len r; vr_rec := r |}]) rs) as [b2 ps'] eqn:Ea.
+    inversion H; subst b' ps. clear H.
+    assert (Et : total_len [r] = rec_len r) by (cbn; lia).
+    rewrite <- Et in Er.
+    destruct (reserve_place_spec c bk b [r] b1 fid start Hwf Er) as (Hwf1 & Hk1 & Hp1).
+    cbn [place map] in Hwf1, Hk1, Hp1.
+    destruct (IH _ _ _ Hwf1 Ea) as (Hwf2 & Hk2 & Hp2).
+    split; [exact Hwf2|]. split; [eapply keeps_trans; eassumption|].
+    constructor; [|exact Hp2]. inversion Hp1; subst. eapply placed_keeps; eassumption.
+Qed.
+
+Lemma append_entries_spec c bk b rs b' ps :
+  bwf b -> append_entries c bk b rs = (b', ps) ->
+  bwf b' /\ keeps b b' /\ Forall2 (placed bk b') rs ps.
+Proof.
+  intros Hwf H. unfold append_entries in H. destruct rs as [|r0 rs0].
+  - inversion H; subst. split; [exact Hwf|]. split; [apply keeps_refl | constructor].
+  - set (rs := r0 :: rs0) in *.
+    destruct ((0 <? c_max c) && (c_max c <? total_len rs)).
+    + now apply (append_each_spec c bk rs b).
+    + destruct (reserve c b (total_len rs)) as [[b1 fid] start] eqn:Er.
+      inversion H; subst b' ps. now apply (reserve_place_spec c bk b rs b1 fid start).
+Qed.
+
+(** * The DB layer: one write request *)
+Inductive aligned (c : cfg) (batch : list rec) : N -> list bucket -> list (list vptr) -> Prop :=
+| aligned_nil bk : aligned c batch bk [] []
+| aligned_cons bk b ps vl pss :
+    Forall2 (placed bk b) (group c bk batch) ps -> aligned c batch (bk + 1) vl pss ->
+    aligned c batch bk (b :: vl) (ps :: pss).
+
+Definition vkeeps (vl vl' : list bucket) : Prop :=
+  forall p v, vl_lookup vl p = Some v -> vl_lookup vl' p = Some v.
+
+Lemma write_buckets_spec c batch : forall vl bk vl' pss,
+  Forall bwf vl -> write_buckets c bk vl batch = (vl', pss) ->
+  Forall bwf vl' /\ Forall2 keeps vl vl' /\ aligned c batch bk vl' pss.
+Proof.
+  induction vl as [|b vl IH]; intros bk vl' pss Hwf H; cbn [write_buckets] in H.
+  - inversion H; subst. repeat split; constructor.
+  - destruct (append_entries c bk b (group c bk batch)) as [b' ps] eqn:Ea.
+    destruct (write_buckets c (bk + 1) vl batch) as [vl'' pss'] eqn:Ew.
+    inversion H; subst vl' pss. clear H. inversion Hwf as [|? ? Hb Hvl]; subst.
+    destruct (append_entries_spec _ _ _ _ _ _ Hb Ea) as (Hb' & Hk & Hp).
+    destruct (IH _ _ _ Hvl Ew) as (Hvl' & Hks & Hal).
+    repeat split; constructor; auto.
+Qed.
+
+Lemma keeps_vkeeps vl vl' : Forall2 keeps vl vl' -> vkeeps vl vl'.
+Proof.
+  intros H p v. unfold vl_lookup. generalize (N.to_nat (p_bucket p)) as n.
+  induction H as [|b b' vl vl' Hk _ IH]; intros [|n]; cbn; try discriminate; auto.
+Qed.
+
+Lemma group_cons_other c bk r batch :
+  (is_big c r && (bucket_of c (r_key r) =? bk)) = false -> group c bk (r :: batch) = group c bk batch.
+Proof. intro H. unfold group. cbn [filter]. now rewrite H. Qed.
+
+Lemma group_cons_same c bk r batch :
+  is_big c r = true -> bucket_of c (r_key r) = bk -> group c bk (r :: batch) = r :: group c bk batch.
+Proof. intros H1 H2. unfold group. cbn [filter]. now rewrite H1, H2, N.eqb_refl. Qed.
+
+(** entries that are not large leave every queue aligned *)
+Lemma aligned_skip c r batch : is_big c r = false -> forall bk vl pss,
+  aligned c (r :: batch) bk vl pss -> aligned c batch bk vl pss.
+Proof.
+  intros Hb bk vl pss H. induction H as [|bk b ps vl pss Hp _ IH]; constructor; [|exact IH].
+  rewrite group_cons_other in Hp by (now rewrite Hb). exact Hp.
+Qed.
+
+Lemma aligned_pop c r batch : is_big c r = true -> forall n bk vl pss,
+  aligned c (r :: batch) bk vl pss -> bucket_of c (r_key r) = bk + N.of_nat n -> (n < length vl)%nat ->
+  exists p pss' b, pop_nth n pss = (Some p, pss') /\ nth_error vl n = Some b /\
+                   placed (bk + N.of_nat n) b r p /\ aligned c batch bk vl pss'.
+Proof.
+  intros Hbig. induction n as [|n IH]; intros bk vl pss H Hbk Hn.
+  - inversion H as [|? b ps vl0 pss0 Hp Hrest]; subst; [cbn in Hn; lia|].
+    rewrite N.add_0_r in Hbk. rewrite (group_cons_same _ _ _ _ Hbig Hbk) in Hp.
+    inversion Hp as [|? p ? ps' Hrp Hps]; subst. exists p, (ps' :: pss0), b.
+    cbn [pop_nth nth_error]. rewrite N.add_0_r.
+    split; [reflexivity|]. split; [reflexivity|]. split; [exact Hrp|].
+    constructor; [exact Hps|].
+    clear - Hrest Hbig. remember (bucket_of c (r_key r) + 1) as bk1 eqn:E.
+    assert (Hne : forall j, bk1 <= j -> bucket_of c (r_key r) <> j) by (intros; lia).
+    clear E. induction Hrest as [|bk2 b2 ps2 vl2 pss2 Hp2 _ IH2]; constructor.
+    + rewrite group_cons_other in Hp2; [exact Hp2|].
+      destruct (bucket_of c (r_key r) =? bk2) eqn:E; [|now rewrite andb_false_r].
+      apply N.eqb_eq in E. exfalso. apply (Hne bk2); [lia | exact E].
+    + apply IH2. intros j Hj. apply Hne. lia.
+  - inversion H as [|? b ps vl0 pss0 Hp Hrest]; subst; [cbn in Hn; lia|].
+    cbn [length] in Hn.
+    destruct (IH (bk + 1) vl0 pss0 Hrest) as (p & pss' & b' & Hpop & Hnth & Hpl & Hal); [lia | lia |].
+    exists p, (ps :: pss'), b'. cbn [pop_nth nth_error]. rewrite Hpop.
+    replace (bk + N.of_nat (S n)) with (bk + 1 + N.of_nat n) by lia.
+    split; [reflexivity|]. split; [exact Hnth|]. split; [exact Hpl|]. constructor; [|exact Hal].
+    rewrite group_cons_other in Hp; [exact Hp|].
+    destruct (bucket_of c (r_key r) =? bk) eqn:E; [|now rewrite andb_false_r]. apply N.eqb_eq in E. lia.
+Qed.
+
+Definition stored (c : cfg) (vl : list bucket) (r x : rec) : Prop :=
+  if is_big c r
+  then exists p v, x = set_val_meta r (enc_vptr p) (N.lor (r_meta r) bit_vptr) /\
+                   vl_lookup vl p = Some v /\ vr_rec v = r /\ p = ptr_of (p_bucket p) (p_fid p) v
+  else x = set_val_meta r (r_val r) (N.ldiff (r_meta r) bit_vptr).
+
+Lemma lsm_entries_spec c vl : forall batch pss,
+  aligned c batch 0 vl pss ->
+  (forall r, In r batch -> (N.to_nat (bucket_of c (r_key r)) < length vl)%nat) ->
+  Forall2 (stored c vl) batch (lsm_entries c batch pss).
+Proof.
+  induction batch as [|r batch IH]; intros pss Hal Hb; cbn [lsm_entries]; [constructor|].
+  destruct (is_big c r) eqn:Ebig.
+  - destruct (aligned_pop c r batch Ebig (N.to_nat (bucket_of c (r_key r))) 0 vl pss Hal) as (p & pss' & b & Hpop & Hnth & Hpl & Hal');
+      [lia | apply Hb; now left |].
+    rewrite Hpop. constructor; [|apply IH; [exact Hal' | intros; apply Hb; now right]].
+    unfold stored. rewrite Ebig. destruct Hpl as [Hbk (v & Hl & Hr)].
+    exists p, v. split; [reflexivity|]. split; [|split; [exact Hr|]].
+    + unfold vl_lookup. rewrite Hbk. replace (N.to_nat (0 + N.of_nat (N.to_nat (bucket_of c (r_key r))))) with (N.to_nat (bucket_of c (r_key r))) by lia.
+      now rewrite Hnth.
+    + unfold b_lookup, f_lookup in Hl. destruct (find_file b (p_fid p)); [|discriminate].
+      destruct (find (fun v0 => vr_off v0 =? p_off p) (vf_recs v0)) as [v1|] eqn:Ef; [|discriminate].
+      destruct (vr_len v1 =? p_len p) eqn:El; [|discriminate]. inversion Hl; subst v1.
+      apply find_some in Ef as [_ Eo]. apply N.eqb_eq in Eo, El. destruct p; cbn in *. unfold ptr_of. now subst.
+  - constructor; [|apply IH; [now apply (aligned_skip c r batch Ebig) | intros; apply Hb; now right]].
+    unfold stored. now rewrite Ebig.
+Qed.
+
+(** * No 32-bit overflow: what makes a pointer survive its 16-byte encoding *)
+Definition bsmall (b : bucket) : Prop :=
+  b_active b < two32 /\ forall f v, In f (b_files b) -> In v (vf_recs f) -> vr_off v < two32 /\ vr_len v < two32.
+Definition vsmall (vl : list bucket) : Prop := N.of_nat (length vl) <= two32 /\ Forall bsmall vl.
+
+Lemma lookup_small vl p v :
+  vsmall vl -> Forall bwf vl -> vl_lookup vl p = Some v -> p = ptr_of (p_bucket p) (p_fid p) v ->
+  p_len p < two32 /\ p_off p < two32 /\ p_fid p < two32 /\ p_bucket p < two32.
+Proof.
+  intros [Hlen Hs] Hwf Hl Hp. unfold vl_lookup in Hl.
+  destruct (nth_error vl (N.to_nat (p_bucket p))) as [b|] eqn:En; [|discriminate].
+  assert (Hn : (N.to_nat (p_bucket p) < length vl)%nat) by (apply nth_error_Some; congruence).
+  apply nth_error_In in En. rewrite Forall_forall in Hs, Hwf. destruct (Hs _ En) as [Ha Hr]. specialize (Hwf _ En).
+  unfold b_lookup in Hl. destruct (find_file b (p_fid p)) as [f|] eqn:Ef; [|discriminate].
+  destruct (find_file_some _ _ _ Ef) as [Hin Hfid]. unfold f_lookup in Hl.
+  destruct (find (fun v0 => vr_off v0 =? p_off p) (vf_recs f)) as [v0|] eqn:E0; [|discriminate].
+  destruct (vr_len v0 =? p_len p); [|discriminate]. inversion Hl; subst v0.
+  apply find_some in E0 as [Hv _]. destruct (Hr _ _ Hin Hv) as [Ho Hl'].
+  pose proof (bw_le _ Hwf _ Hin). rewrite Hp. cbn [ptr_of p_len p_off p_fid p_bucket].
+  repeat split; lia.
+Qed.
+
+Lemma rt_vptr' p :
+  p_len p < two32 -> p_off p < two32 -> p_fid p < two32 -> p_bucket p < two32 ->
+  decode_vptr (enc_vptr p) = p.
+Proof.
+  destruct p as [a b c d]. cbn [p_len p_off p_fid p_bucket]. intros Ha Hb Hc Hd.
+  unfold decode_vptr, enc_vptr. cbn [p_len p_off p_fid p_bucket].
+  rewrite rd_be32_be32.
+  change (Num.drop 4 (be32 a ++ be32 b ++ be32 c ++ be32 d)) with (be32 b ++ be32 c ++ be32 d).
+  change (Num.drop 8 (be32 a ++ be32 b ++ be32 c ++ be32 d)) with (be32 c ++ be32 d).
+  change (Num.drop 12 (be32 a ++ be32 b ++ be32 c ++ be32 d)) with (be32 d ++ []).
+  rewrite !rd_be32_be32. now rewrite !N.mod_small by assumption.
+Qed.
+
+Definition norm (w : rec) : rec := set_val_meta w (r_val w) (N.ldiff (r_meta w) bit_vptr).
+
+Lemma ldiff_lor_2 m : N.ldiff (N.lor m 2) 2 = N.ldiff m 2.
+Proof.
+  apply N.bits_inj. intro i. rewrite !N.ldiff_spec, N.lor_spec.
+  destruct (N.testbit m i), (N.testbit 2 i); reflexivity.
+Qed.
+
+Lemma stored_resolve c vl w x :
+  vsmall vl -> Forall bwf vl -> rec_ok w -> stored c vl w x -> resolve vl x = GVal (norm w).
+Proof.
+  intros Hs Hwf Hok H. unfold stored in H. unfold resolve, is_ptr. destruct (is_big c w).
+  - destruct H as (p & v & -> & Hl & Hr & Hp). cbn [set_val_meta r_meta r_val].
+    assert (Hb : N.testbit (N.lor (r_meta w) bit_vptr) 1 = true).
+    { rewrite N.lor_spec. change (N.testbit bit_vptr 1) with true. apply orb_true_r. }
+    rewrite Hb. destruct (lookup_small _ _ _ Hs Hwf Hl Hp) as (P1 & P2 & P3 & P4).
+    rewrite rt_vptr' by assumption. rewrite (vl_read_lookup _ _ _ Hl) by (now rewrite Hr). rewrite Hr.
+    unfold norm, set_val_meta. cbn. f_equal. f_equal. apply ldiff_lor_2.
+  - subst x. cbn [set_val_meta r_meta].
+    assert (Hb : N.testbit (N.ldiff (r_meta w) bit_vptr) 1 = false).
+    { rewrite N.ldiff_spec. change (N.testbit bit_vptr 1) with true. apply andb_false_r. }
+    rewrite Hb. reflexivity.
+Qed.
+
+Lemma stored_image c vl w x : stored c vl w x -> r_key x = r_key w /\ r_ver x = r_ver w /\ r_seq x = r_seq w.
+Proof. unfold stored. destruct (is_big c w); [intros (p & v & -> & _) | intros ->]; cbn; auto. Qed.
+
+Lemma stored_keeps c vl vl' w x : vkeeps vl vl' -> stored c vl w x -> stored c vl' w x.
+Proof.
+  intros Hk. unfold stored. destruct (is_big c w); [|auto].
+  intros (p & v & E & Hl & Hr & Hp). exists p, v. repeat split; auto.
+Qed.
+
+(** * [latest_at] only looks at key, version and ghost number *)
+Definition same_id (w x : rec) : Prop := r_key x = r_key w /\ r_ver x = r_ver w /\ r_seq x = r_seq w.
+
+Definition orel (R : rec -> rec -> Prop) (a b : option rec) : Prop :=
+  match a, b with Some w, Some x => R w x | None, None => True | _, _ => False end.
+
+Lemma latest_at_rel (R : rec -> rec -> Prop) ws lws k v :
+  (forall w x, R w x -> same_id w x) -> Forall2 R ws lws ->
+  orel R (latest_at ws k v) (latest_at lws k v).
+Proof.
+  intros HR H. unfold latest_at.
+  assert (G : forall b b', orel R b b' ->
+     orel R (fold_left pick_better (filter (cand k v) ws) b) (fold_left pick_better (filter (cand k v) lws) b')).
+  { induction H as [|w x ws lws Hwx _ IH]; intros b b' Hb; cbn [filter fold_left]; [exact Hb|].
+    destruct (HR _ _ Hwx) as (Ek & Ev & Es).
+    assert (Ec : cand k v x = cand k v w) by (unfold cand; now rewrite Ek, Ev).
+    rewrite Ec. destruct (cand k v w); [|now apply IH]. cbn [fold_left]. apply IH.
+    destruct b as [bw|], b' as [bx|]; cbn in Hb; try contradiction; cbn [pick_better orel]; [|exact Hwx].
+    destruct (HR _ _ Hb) as (Ek' & Ev' & Es').
+    assert (Eb : better x bx = better w bw) by (unfold better; now rewrite Ev, Es, Ev', Es').
+    rewrite Eb. destruct (better w bw); cbn; assumption. }
+  apply G. exact I.
+Qed.
+
+(** * The invariant of the DB layer *)
+Definition wr_ok (hist : list rec) (r : rec) : Prop :=
+  0 < r_ver r /\ (forall y, In y hist -> r_seq y < r_seq r) /\ (forall y, In y hist -> r_key y = r_key r -> geq r y).
+Fixpoint chain_ok (hist batch : list rec) : Prop :=
+  match batch with [] => True | r :: b => wr_ok hist r /\ chain_ok (hist ++ [r]) b end.
+
+Lemma forall2_in_r {A B} (R : A -> B -> Prop) l l' y : Forall2 R l l' -> In y l' -> exists x, In x l /\ R x y.
+Proof.
+  induction 1 as [|a b l l' Hab _ IH]; intros Hy; [contradiction|].
+  destruct Hy as [<-|Hy]; [exists a; split; [now left | exact Hab]|].
+  destruct (IH Hy) as (x & Hx & Hr). exists x. split; [now right | exact Hr].
+Qed.
+
+Lemma wr_ok_transfer ws lws r x : Forall2 same_id ws lws -> same_id r x -> wr_ok ws r -> wr_ok lws x.
+Proof.
+  intros H (Ek & Ev & Es) (H0 & H1 & H2). split; [now rewrite Ev|]. split.
+  - intros y' Hy'. destruct (forall2_in_r _ _ _ _ H Hy') as (y & Hy & (_ & _ & Es')). rewrite Es, Es'. auto.
+  - intros y' Hy' Hk. destruct (forall2_in_r _ _ _ _ H Hy') as (y & Hy & (Ek' & Ev' & Es')).
+    assert (Hg : geq r y) by (apply H2; [exact Hy | congruence]).
+    unfold geq in *. rewrite Ev, Es, Ev', Es'. exact Hg.
+Qed.
+
+Lemma chain_ok_transfer batch : forall xs ws lws,
+  Forall2 same_id ws lws -> Forall2 same_id batch xs -> chain_ok ws batch -> chain_ok lws xs.
+Proof.
+  induction batch as [|r batch IH]; intros xs ws lws Hh Hb Hc; inversion Hb as [|? x ? xs' Hrx Hb']; subst; cbn in *; [exact I|].
+  destruct Hc as [Hw Hc]. split; [eapply wr_ok_transfer; eassumption|].
+  apply (IH _ (ws ++ [r])); [|exact Hb' | exact Hc]. apply Forall2_app; [exact Hh | now constructor].
+Qed.
+
+Lemma puts_J xs : forall s lws, J s lws -> chain_ok lws xs -> J (fold_left put xs s) (lws ++ xs).
+Proof.
+  induction xs as [|x xs IH]; intros s lws HJ Hc; cbn [fold_left].
+  - now rewrite app_nil_r.
+  - destruct Hc as [(H0 & H1 & H2) Hc]. replace (lws ++ x :: xs) with ((lws ++ [x]) ++ xs) by (now rewrite <- app_assoc).
+    apply IH; [|exact Hc]. now apply put_J.
+Qed.
+
+Lemma chain_seq_functional batch : forall ws, seq_functional ws -> chain_ok ws batch -> seq_functional (ws ++ batch).
+Proof.
+  induction batch as [|r b IH]; intros ws Hf Hc; [now rewrite app_nil_r|].
+  destruct Hc as [(_ & H1 & _) Hc]. replace (ws ++ r :: b) with ((ws ++ [r]) ++ b) by (now rewrite <- app_assoc).
+  apply IH; [|exact Hc]. now apply seq_functional_snoc.
+Qed.
+
+Definition Inv (c : cfg) (d : db) (ws : list rec) : Prop :=
+  exists lws, J (d_lsm d) lws /\ Forall2 (stored c (d_vl d)) ws lws /\ Forall bwf (d_vl d) /\ vsmall (d_vl d) /\
+              Forall rec_ok ws /\ N.of_nat (length (d_vl d)) = N.max 1 (c_nb c) /\ seq_functional ws.
+
+Lemma bucket_lt c k n : N.of_nat n = N.max 1 (c_nb c) -> (N.to_nat (bucket_of c k) < n)%nat.
+Proof.
+  intro H. unfold bucket_of. destruct (c_nb c <=? 1) eqn:E; [lia|].
+  pose proof (N.mod_lt (match k with [] => 0 | _ :: _ => crc32c k end) (c_nb c)). lia.
+Qed.
+
+Lemma forall2_len {A B} (R : A -> B -> Prop) l l' : Forall2 R l l' -> length l = length l'.
+Proof. induction 1; cbn; congruence. Qed.
+
+Lemma forall2_impl {A B} (R R' : A -> B -> Prop) l l' : (forall a b, R a b -> R' a b) -> Forall2 R l l' -> Forall2 R' l l'.
+Proof. intros H. induction 1; constructor; auto. Qed.
+
+Theorem db_write_Inv c d ws batch :
+  Inv c d ws -> chain_ok ws batch -> Forall rec_ok batch -> vsmall (d_vl (db_write c d batch)) ->
+  Inv c (db_write c d batch) (ws ++ batch).
+Proof.
+  intros (lws & HJ & Hst & Hwf & _ & Hok & Hlen & Hsf) Hc Hrb Hsm. unfold db_write in *.
+  destruct (write_buckets c 0 (d_vl d) batch) as [vl' pss] eqn:Ew. cbn [d_lsm d_vl] in *.
+  destruct (write_buckets_spec c batch _ _ _ _ Hwf Ew) as (Hwf' & Hk & Hal).
+  assert (Hlen' : length vl' = length (d_vl d)) by (symmetry; eapply forall2_len; exact Hk).
+  assert (Hx : Forall2 (stored c vl') batch (lsm_entries c batch pss)).
+  { apply lsm_entries_spec; [exact Hal|]. intros r _. apply bucket_lt. now rewrite Hlen'. }
+  exists (lws ++ lsm_entries c batch pss). cbn [d_lsm d_vl]. split; [|split; [|split; [exact Hwf'|split; [exact Hsm|split; [|split]]]]].
+  - apply puts_J; [exact HJ|]. eapply chain_ok_transfer; [| |exact Hc].
+    + eapply forall2_impl; [|exact Hst]. intros a b. apply stored_image.
+    + eapply forall2_impl; [|exact Hx]. intros a b. apply stored_image.
+  - apply Forall2_app; [|exact Hx]. eapply forall2_impl; [|exact Hst].
+    intros a b. apply stored_keeps. now apply keeps_vkeeps.
+  - apply Forall_app. now split.
+  - now rewrite Hlen'.
+  - now apply chain_seq_functional.
+Qed.
+
+Lemma Inv_lsm_step c d ws s' :
+  Inv c d ws -> (forall lws, J (d_lsm d) lws -> J s' lws) -> Inv c {| d_lsm := s'; d_vl := d_vl d |} ws.
+Proof. intros (lws & HJ & H) Hs. exists lws. split; [now apply Hs | exact H]. Qed.
+
+Theorem Inv_get c d ws k v :
+  Inv c d ws ->
+  db_get d k v = match latest_at ws k v with Some w => GVal (norm w) | None => GNone end.
+Proof.
+  intros (lws & HJ & Hst & Hwf & Hsm & Hok & _ & _). unfold db_get. rewrite (J_get_latest _ _ k v HJ).
+  pose proof (latest_at_rel (stored c (d_vl d)) ws lws k v (stored_image c (d_vl d)) Hst) as Hr.
+  pose proof (latest_at_is_latest ws k v) as Hl.
+  destruct (latest_at ws k v) as [w|], (latest_at lws k v) as [x|]; cbn in Hr; try contradiction; [|reflexivity].
+  destruct Hl as [Hin _]. rewrite Forall_forall in Hok. exact (stored_resolve c _ _ _ Hsm Hwf (Hok _ Hin) Hr).
+Qed.
+
+Lemma init_Inv c m : c_nb c <= two32 -> Inv c (init_db c m) [].
+Proof.
+  intro Hnb. exists []. unfold init_db. cbn [d_lsm d_vl]. split; [apply J_init|]. split; [constructor|].
+  assert (Hl : length (repeat empty_bucket (N.to_nat (N.max 1 (c_nb c)))) = N.to_nat (N.max 1 (c_nb c))) by apply repeat_length.
+  assert (Hall : forall b, In b (repeat empty_bucket (N.to_nat (N.max 1 (c_nb c)))) -> b = empty_bucket)
+    by (intros b Hb; now apply repeat_spec in Hb).
+  split; [|split; [|split; [constructor | split; [rewrite Hl; lia | intros ? ? []]]]].
+  - apply Forall_forall. intros b Hb. rewrite (Hall _ Hb). apply empty_bucket_wf.
+  - split; [rewrite Hl; unfold two32 in *; lia|].
+    apply Forall_forall. intros b Hb. rewrite (Hall _ Hb). split; [cbn; unfold two32; lia|].
+    intros f v [<-|[]] [].
+Qed.
+
+(** * Histories of write requests and LSM maintenance *)
+Inductive vop := VWrite (batch : list rec) | VRotate | VFlush.
+
+Definition with_lsm (d : db) (s : state) : db := {| d_lsm := s; d_vl := d_vl d |}.
+Definition vapply (c : cfg) (d : db) (o : vop) : db :=
+  match o with
+  | VWrite b => db_write c d b
+  | VRotate => with_lsm d (rotate (d_lsm d))
+  | VFlush => with_lsm d (flush (d_lsm d))
+  end.
+Definition vrun (c : cfg) (d : db) (ops : list vop) : db := fold_left (vapply c) ops d.
+Definition vwrites (ops : list vop) : list rec :=
+  concat (map (fun o => match o with VWrite b => b | _ => [] end) ops).
+
+(** boolean side conditions, evaluated along the run *)
+Definition rec_okb (r : rec) : bool :=
+  (blen (ikey (r_key r) (r_ver r)) <? two32) && (blen (r_val r) <? two32) && (r_meta r <? 256) && (r_exp r <? two64).
+Fixpoint chain_okb (hist batch : list rec) : bool :=
+  match batch with [] => true | r :: b => put_okb hist r && chain_okb (hist ++ [r]) b end.
+Definition bsmallb (b : bucket) : bool :=
+  (b_active b <? two32) &&
+  forallb (fun f => forallb (fun v => (vr_off v <? two32) && (vr_len v <? two32)) (vf_recs f)) (b_files b).
+Definition vsmallb (vl : list bucket) : bool := (N.of_nat (length vl) <=? two32) && forallb bsmallb vl.
+
+Fixpoint ops_okb (c : cfg) (d : db) (hist : list rec) (ops : list vop) : bool :=
+  match ops with
+  | [] => true
+  | VWrite b :: ops' =>
+      chain_okb hist b && forallb rec_okb b && vsmallb (d_vl (db_write c d b)) && ops_okb c (db_write c d b) (hist ++ b) ops'
+  | o :: ops' => ops_okb c (vapply c d o) hist ops'
+  end.
+
+Lemma rec_okb_spec r : rec_okb r = true -> rec_ok r.
+Proof.
+  unfold rec_okb, rec_ok, entry_ok, entry_of. cbn [e_key e_val e_meta e_exp].
+  rewrite !andb_true_iff, !N.ltb_lt. tauto.
+Qed.
+
+Lemma chain_okb_spec batch : forall hist, chain_okb hist batch = true -> chain_ok hist batch.
+Proof.
+  induction batch as [|r b IH]; intros hist H; cbn in *; [exact I|].
+  apply andb_true_iff in H as [H1 H2]. split; [|now apply IH]. now apply put_okb_spec.
+Qed.
+
+Lemma vsmallb_spec vl : vsmallb vl = true -> vsmall vl.
+Proof.
+  unfold vsmallb, vsmall. rewrite andb_true_iff, N.leb_le, forallb_forall. intros [H1 H2]. split; [exact H1|].
+  apply Forall_forall. intros b Hb. specialize (H2 b Hb). unfold bsmallb in H2.
+  apply andb_true_iff in H2 as [Ha Hf]. apply N.ltb_lt in Ha. split; [exact Ha|].
+  intros f v Hf' Hv. rewrite forallb_forall in Hf. specialize (Hf f Hf'). rewrite forallb_forall in Hf.
+  specialize (Hf v Hv). apply andb_true_iff in Hf as [X Y]. now rewrite !N.ltb_lt in *.
+Qed.
+
+Lemma vrun_Inv c ops : forall d hist,
+  Inv c d hist -> ops_okb c d hist ops = true -> Inv c (vrun c d ops) (hist ++ vwrites ops).
+Proof.
+  induction ops as [|o ops IH]; intros d hist HI Hok; cbn [vrun fold_left].
+  - unfold vwrites. cbn. now rewrite app_nil_r.
+  - change (fold_left (vapply c) ops (vapply c d o)) with (vrun c (vapply c d o) ops).
+    unfold vwrites. cbn [map concat]. fold (vwrites ops).
+    destruct o as [b| |]; cbn [ops_okb] in Hok.
+    + apply andb_true_iff in Hok as [Hok H4]. apply andb_true_iff in Hok as [Hok H3]. apply andb_true_iff in Hok as [H1 H2].
+      rewrite app_assoc. apply IH; [|exact H4]. cbn [vapply]. apply db_write_Inv; auto.
+      * now apply chain_okb_spec.
+      * apply Forall_forall. intros r Hr. rewrite forallb_forall in H2. apply rec_okb_spec. auto.
+      * now apply vsmallb_spec.
+    + cbn [app]. apply IH; [|exact Hok]. cbn [vapply]. apply Inv_lsm_step; [exact HI|]. intros lws. apply rotate_J.
+    + cbn [app]. apply IH; [|exact Hok]. cbn [vapply]. apply Inv_lsm_step; [exact HI|]. intros lws. apply flush_J.
+Qed.
+
+Definition gobs (g : gres) : obs :=
+  match g with GNone => ONone | GErr => OErr | GVal r => OVal (r_val r) (r_meta r) end.
+
+Lemma dead_norm now w : dead now (norm w) = spec_dead now w.
+Proof.
+  unfold dead, spec_dead, norm, set_val_meta. cbn [r_meta r_exp]. f_equal.
+  rewrite N.ldiff_spec. change (N.testbit bit_vptr 0) with false. cbn. apply andb_true_r.
+Qed.
+
+(** Every read API of the model returns what the full-value specification says. *)
+Theorem roundtrip c m ops now :
+  c_nb c <= two32 -> ops_okb c (init_db c m) [] ops = true ->
+  let d := vrun c (init_db c m) ops in
+  stores now (fun k v => gobs (db_get d k v)) (fun k v => gobs (db_get_live now d k v)) (vwrites ops).
+Proof.
+  intros Hnb Hok d k v.
+  assert (HI : Inv c d ([] ++ vwrites ops)) by (apply vrun_Inv; [now apply init_Inv | exact Hok]).
+  cbn [app] in HI. unfold db_get_live. rewrite (Inv_get _ _ _ k v HI). unfold spec_getv, spec_get.
+  destruct (latest_at (vwrites ops) k v) as [w|]; [|split; reflexivity].
+  rewrite dead_norm. split; [reflexivity|]. destruct (spec_dead now w); reflexivity.
+Qed.
+
+(** The hypotheses of [roundtrip] hold on a history with values on both sides of
+    the threshold, two buckets, value-log file rotation (file size 150), an
+    oversize record, overwrites, a delete and LSM rotation/flush. *)
+Definition ex_val (n : nat) (b : byte) : bytes := repeat b n.
+Definition ex_rec (k : byte) (ver : N) (v : bytes) (meta seq : N) : rec :=
+  {| r_key := [xff; x43; x46; x00; k]; r_ver := ver; r_val := v; r_meta := meta; r_exp := 0; r_seq := seq |}.
+Definition ex_cfg : cfg := {| c_thr := 32; c_max := 150; c_nb := 2 |}.
+Definition ex_ops : list vop :=
+  [ VWrite [ex_rec x61 max_ver (ex_val 40 x61) 0 1];
+    VWrite [ex_rec x62 max_ver (ex_val 3 x62) 0 2];
+    VWrite [ex_rec x61 max_ver (ex_val 200 x63) 0 3];
+    VRotate;
+    VWrite [ex_rec x63 5 (ex_val 33 x64) 0 4; ex_rec x64 5 (ex_val 60 x65) 16 5; ex_rec x65 5 (ex_val 70 x66) 0 6];
+    VFlush;
+    VWrite [ex_rec x62 max_ver [] 1 7];
+    VWrite [ex_rec x63 6 (ex_val 100 x67) 0 8] ].
+Example roundtrip_hyp_ex : ops_okb ex_cfg (init_db ex_cfg 1) [] ex_ops = true.
+Proof. vm_compute. reflexivity. Qed.
+Example roundtrip_rotates_ex :
+  map (fun b => length (b_files b)) (d_vl (vrun ex_cfg (init_db ex_cfg 1) ex_ops)) = [3%nat; 3%nat].
+Proof. vm_compute. reflexivity. Qed.
